@@ -154,13 +154,15 @@ class MCMC(Identifiable, Runnable):
                     }
                 )
 
+            # the counter is advanced before the checkpoint is written so that a
+            # restarted run resumes with the next iteration
+            self._epoch += 1
+
             if (
                 self.checkpoint is not None
-                and self._epoch % self.checkpoint_frequency == 0
+                and (self._epoch - 1) % self.checkpoint_frequency == 0
             ):
                 self.save_full_state()
-
-            self._epoch += 1
 
         for logger in self.loggers:
             logger.close()
@@ -187,8 +189,7 @@ class MCMC(Identifiable, Runnable):
                 if op.id == op_state["id"]:
                     op.load_state_dict(op_state)
                     break
-        # the checkpoint is written at the end of an iteration: resume with the next one
-        self._epoch = state_dict["iteration"] + 1
+        self._epoch = state_dict["iteration"]
 
     def save_full_state(self) -> None:
         """Save the full state of the MCMC algorithm."""
